@@ -7,6 +7,7 @@ import (
 	"fmt"
 	"math/big"
 	"sort"
+	"strings"
 
 	"github.com/NethermindEth/juno/core"
 	"github.com/NethermindEth/juno/core/felt"
@@ -84,6 +85,7 @@ type blockCtx struct {
 	Migratable []uint64 // of those: declared before 0.14.1 and not migrated yet
 	NextAddr   uint64
 	NextClass  uint64
+	Tour       bool // the block carries one transaction of every kind, boundary-valued and random (field coverage tour)
 }
 
 type Built struct {
@@ -91,6 +93,7 @@ type Built struct {
 	Update  *core.StateUpdate
 	Classes map[felt.Felt]core.ClassDefinition
 	Kinds   []string // transaction kinds, for the histogram
+	Pre07   bool     // fixture block hashed with the pre-0.7 rules of its network
 }
 
 var sierraCache = map[uint64]*felt.Felt{}
@@ -113,7 +116,7 @@ func txVersion(v uint64, q bool) *core.TransactionVersion {
 	return tv
 }
 
-func genBounds(r *hx.RNG, withL1Data bool) map[core.Resource]core.ResourceBounds {
+func genBoundsUnused(r *hx.RNG, withL1Data bool) map[core.Resource]core.ResourceBounds {
 	m := map[core.Resource]core.ResourceBounds{
 		core.ResourceL1Gas: {MaxAmount: ru64(r), MaxPricePerUnit: r128(r)},
 		core.ResourceL2Gas: {MaxAmount: ru64(r), MaxPricePerUnit: r128(r)},
@@ -124,90 +127,198 @@ func genBounds(r *hx.RNG, withL1Data bool) map[core.Resource]core.ResourceBounds
 	return m
 }
 
+// src draws field values: random ones, or (boundary mode) the smallest legal value of every field - zero
+// felts, zero integers, empty lists - so that valid blocks themselves contain zero nonces, empty calldata,
+// empty paymaster / account-deployment data, tip 0, zero resource bounds and empty signatures.
+type src struct {
+	r *hx.RNG
+	b bool
+}
+
+func (s src) f() *felt.Felt {
+	if s.b {
+		return fz(0)
+	}
+	return rf(s.r)
+}
+
+func (s src) fs(max int) []felt.Felt {
+	if s.b {
+		return nil
+	}
+	return rfs(s.r, max)
+}
+
+func (s src) u() uint64 {
+	if s.b {
+		return 0
+	}
+	return ru64(s.r)
+}
+
+func (s src) p() *felt.Felt {
+	if s.b {
+		return fz(0)
+	}
+	return r128(s.r)
+}
+
+func (s src) bounds(withL1Data bool) map[core.Resource]core.ResourceBounds {
+	m := map[core.Resource]core.ResourceBounds{
+		core.ResourceL1Gas: {MaxAmount: s.u(), MaxPricePerUnit: s.p()},
+		core.ResourceL2Gas: {MaxAmount: s.u(), MaxPricePerUnit: s.p()},
+	}
+	if withL1Data {
+		m[core.ResourceL1DataGas] = core.ResourceBounds{MaxAmount: s.u(), MaxPricePerUnit: s.p()}
+	}
+	return m
+}
+
+// the transaction kinds juno knows: nine whose hash it recomputes, three whose declared hash it trusts
+const (
+	kInvokeV3 = iota
+	kInvokeV1
+	kInvokeV0
+	kDeclareV3
+	kDeclareV2
+	kDeclareV1
+	kDeployAccountV3
+	kDeployAccountV1
+	kL1Handler
+	kL1HandlerNoNonce // legacy shape: nil nonce, hash not recomputed
+	kDeploy           // hash never recomputed
+	kDeclareV0        // hash not recomputed
+	nKinds
+)
+
+var kindNames = [nKinds]string{"invoke_v3", "invoke_v1", "invoke_v0", "declare_v3", "declare_v2", "declare_v1",
+	"deploy_account_v3", "deploy_account_v1", "l1_handler", "l1_handler_nil_nonce", "deploy", "declare_v0"}
+
 func genTx(r *hx.RNG, ver string) (core.Transaction, string) {
-	q := r.Chance(8)
+	weights := [nKinds]int{6, 2, 1, 2, 2, 1, 2, 2, 3, 0, 0, 0}
+	if ver < "0.13.2" {
+		weights[kL1HandlerNoNonce], weights[kDeploy], weights[kDeclareV0] = 1, 2, 2
+	}
+	total := 0
+	for _, w := range weights {
+		total += w
+	}
+	x, kind := r.Intn(total), 0
+	for x >= weights[kind] {
+		x -= weights[kind]
+		kind++
+	}
+	return genTxOf(r, ver, kind, r.Chance(15))
+}
+
+func genTxOf(r *hx.RNG, ver string, kind int, boundary bool) (core.Transaction, string) {
+	s := src{r, boundary}
+	q := !boundary && r.Chance(8)
 	l1data := ver >= "0.13.4" || r.Chance(30)
-	da := func() core.DataAvailabilityMode { return core.DataAvailabilityMode(r.Intn(2)) }
-	sig := rfs(r, 3)
-	if r.Chance(10) {
+	da := func() core.DataAvailabilityMode {
+		if boundary {
+			return 0
+		}
+		return core.DataAvailabilityMode(r.Intn(2))
+	}
+	sig := s.fs(3)
+	if !boundary && r.Chance(10) {
 		sig = []felt.Felt{{}} // the signature [0]
 	}
-	k := r.Intn(20)
-	if ver < "0.13.2" && r.Chance(20) {
-		k = 20 + r.Intn(2) // the kinds whose hash juno does not recompute, in old-format blocks
+	name := kindNames[kind]
+	if boundary {
+		name += "(boundary)"
 	}
-	switch {
-	case k == 20:
-		return &core.DeployTransaction{TransactionHash: rf(r), Version: txVersion(uint64(r.Intn(2)), false), ContractAddress: rf(r),
-			ContractAddressSalt: rf(r), ClassHash: rf(r), ConstructorCallData: rfs(r, 3)}, "deploy"
-	case k == 21:
-		return &core.DeclareTransaction{TransactionHash: rf(r), Version: txVersion(0, false), SenderAddress: rf(r), MaxFee: rf(r),
-			Nonce: rf(r), ClassHash: rf(r), TransactionSignature: sig}, "declare_v0"
-	case k < 6:
-		t := &core.InvokeTransaction{Version: txVersion(3, q), SenderAddress: rf(r), Nonce: rf(r), CallData: rfs(r, 3),
-			ResourceBounds: genBounds(r, l1data), Tip: ru64(r), PaymasterData: rfs(r, 2), AccountDeploymentData: rfs(r, 2),
+	switch kind {
+	case kDeploy:
+		return &core.DeployTransaction{TransactionHash: rf(r), Version: txVersion(uint64(r.Intn(2)), false), ContractAddress: s.f(),
+			ContractAddressSalt: s.f(), ClassHash: s.f(), ConstructorCallData: s.fs(3)}, name
+	case kDeclareV0:
+		return &core.DeclareTransaction{TransactionHash: rf(r), Version: txVersion(0, false), SenderAddress: s.f(), MaxFee: s.f(),
+			Nonce: s.f(), ClassHash: s.f(), TransactionSignature: sig}, name
+	case kInvokeV3:
+		t := &core.InvokeTransaction{Version: txVersion(3, q), SenderAddress: s.f(), Nonce: s.f(), CallData: s.fs(3),
+			ResourceBounds: s.bounds(l1data), Tip: s.u(), PaymasterData: s.fs(2), AccountDeploymentData: s.fs(2),
 			NonceDAMode: da(), FeeDAMode: da(), TransactionSignature: sig}
-		if r.Chance(25) {
+		if !boundary && r.Chance(25) {
 			t.ProofFacts = rfs(r, 2)
 		}
-		return t, "invoke_v3"
-	case k < 8:
-		return &core.InvokeTransaction{Version: txVersion(1, q), SenderAddress: rf(r), MaxFee: rf(r), Nonce: rf(r),
-			CallData: rfs(r, 3), TransactionSignature: sig}, "invoke_v1"
-	case k < 9:
-		return &core.InvokeTransaction{Version: txVersion(0, q), ContractAddress: rf(r), EntryPointSelector: rf(r), MaxFee: rf(r),
-			CallData: rfs(r, 3), TransactionSignature: sig}, "invoke_v0"
-	case k < 11:
-		return &core.DeclareTransaction{Version: txVersion(3, q), SenderAddress: rf(r), Nonce: rf(r), ClassHash: rf(r),
-			CompiledClassHash: rf(r), ResourceBounds: genBounds(r, l1data), Tip: ru64(r), PaymasterData: rfs(r, 2),
-			AccountDeploymentData: rfs(r, 2), NonceDAMode: da(), FeeDAMode: da(), TransactionSignature: sig}, "declare_v3"
-	case k < 13:
-		return &core.DeclareTransaction{Version: txVersion(2, q), SenderAddress: rf(r), MaxFee: rf(r), Nonce: rf(r), ClassHash: rf(r),
-			CompiledClassHash: rf(r), TransactionSignature: sig}, "declare_v2"
-	case k < 14:
-		return &core.DeclareTransaction{Version: txVersion(1, q), SenderAddress: rf(r), MaxFee: rf(r), Nonce: rf(r), ClassHash: rf(r),
-			TransactionSignature: sig}, "declare_v1"
-	case k < 16:
+		return t, name
+	case kInvokeV1:
+		return &core.InvokeTransaction{Version: txVersion(1, q), SenderAddress: s.f(), MaxFee: s.f(), Nonce: s.f(),
+			CallData: s.fs(3), TransactionSignature: sig}, name
+	case kInvokeV0:
+		return &core.InvokeTransaction{Version: txVersion(0, q), ContractAddress: s.f(), EntryPointSelector: s.f(), MaxFee: s.f(),
+			CallData: s.fs(3), TransactionSignature: sig}, name
+	case kDeclareV3:
+		return &core.DeclareTransaction{Version: txVersion(3, q), SenderAddress: s.f(), Nonce: s.f(), ClassHash: s.f(),
+			CompiledClassHash: s.f(), ResourceBounds: s.bounds(l1data), Tip: s.u(), PaymasterData: s.fs(2),
+			AccountDeploymentData: s.fs(2), NonceDAMode: da(), FeeDAMode: da(), TransactionSignature: sig}, name
+	case kDeclareV2:
+		return &core.DeclareTransaction{Version: txVersion(2, q), SenderAddress: s.f(), MaxFee: s.f(), Nonce: s.f(), ClassHash: s.f(),
+			CompiledClassHash: s.f(), TransactionSignature: sig}, name
+	case kDeclareV1:
+		return &core.DeclareTransaction{Version: txVersion(1, q), SenderAddress: s.f(), MaxFee: s.f(), Nonce: s.f(), ClassHash: s.f(),
+			TransactionSignature: sig}, name
+	case kDeployAccountV3:
 		return &core.DeployAccountTransaction{
-			DeployTransaction: core.DeployTransaction{Version: txVersion(3, q), ContractAddress: rf(r), ContractAddressSalt: rf(r),
-				ClassHash: rf(r), ConstructorCallData: rfs(r, 3)},
-			Nonce: rf(r), ResourceBounds: genBounds(r, l1data), Tip: ru64(r), PaymasterData: rfs(r, 2),
-			NonceDAMode: da(), FeeDAMode: da(), TransactionSignature: sig}, "deploy_account_v3"
-	case k < 18:
+			DeployTransaction: core.DeployTransaction{Version: txVersion(3, q), ContractAddress: s.f(), ContractAddressSalt: s.f(),
+				ClassHash: s.f(), ConstructorCallData: s.fs(3)},
+			Nonce: s.f(), ResourceBounds: s.bounds(l1data), Tip: s.u(), PaymasterData: s.fs(2),
+			NonceDAMode: da(), FeeDAMode: da(), TransactionSignature: sig}, name
+	case kDeployAccountV1:
 		return &core.DeployAccountTransaction{
-			DeployTransaction: core.DeployTransaction{Version: txVersion(1, q), ContractAddress: rf(r), ContractAddressSalt: rf(r),
-				ClassHash: rf(r), ConstructorCallData: rfs(r, 3)},
-			MaxFee: rf(r), Nonce: rf(r), TransactionSignature: sig}, "deploy_account_v1"
-	default:
-		cd := rfs(r, 3)
+			DeployTransaction: core.DeployTransaction{Version: txVersion(1, q), ContractAddress: s.f(), ContractAddressSalt: s.f(),
+				ClassHash: s.f(), ConstructorCallData: s.fs(3)},
+			MaxFee: s.f(), Nonce: s.f(), TransactionSignature: sig}, name
+	default: // the two L1 handler shapes
+		cd := s.fs(3)
 		if len(cd) == 0 {
-			cd = []felt.Felt{*rf(r)} // CallData[0] is the L1 sender (MessageHash reads it)
+			cd = []felt.Felt{*s.f()} // CallData[0] is the L1 sender (MessageHash reads it)
 		}
-		return &core.L1HandlerTransaction{Version: txVersion(0, q), ContractAddress: rf(r), EntryPointSelector: rf(r),
-			Nonce: rf(r), CallData: cd}, "l1_handler"
+		t := &core.L1HandlerTransaction{Version: txVersion(0, q), ContractAddress: s.f(), EntryPointSelector: s.f(), CallData: cd}
+		switch {
+		case kind == kL1HandlerNoNonce:
+			t.TransactionHash = rf(r) // trusted by juno: nothing to recompute it from
+		case boundary || r.Chance(30):
+			t.Nonce = fz(0) // zero is a legitimate nonce (the first message a core contract sends)
+		default:
+			t.Nonce = rf(r)
+		}
+		return t, name
 	}
 }
 
-func genReceipt(r *hx.RNG, tx core.Transaction) *core.TransactionReceipt {
-	rc := &core.TransactionReceipt{Fee: rf(r), FeeUnit: core.FeeUnit(r.Intn(2)),
+func genReceipt(r *hx.RNG, tx core.Transaction, boundary bool) *core.TransactionReceipt {
+	s := src{r, boundary}
+	rc := &core.TransactionReceipt{Fee: s.f(), FeeUnit: core.FeeUnit(r.Intn(2)),
 		ExecutionResources: &core.ExecutionResources{Steps: uint64(r.Intn(1000)),
-			TotalGasConsumed: &core.GasConsumed{L1Gas: ru64(r), L1DataGas: ru64(r), L2Gas: ru64(r)}}}
-	if r.Chance(10) {
+			TotalGasConsumed: &core.GasConsumed{L1Gas: s.u(), L1DataGas: s.u(), L2Gas: s.u()}}}
+	if !boundary && r.Chance(10) {
 		rc.ExecutionResources.TotalGasConsumed = nil
 	}
-	for i, n := 0, r.Intn(4); i < n; i++ {
+	for i, n := 0, r.Intn(4); i < n && !boundary; i++ {
 		rc.Events = append(rc.Events, &core.Event{From: rf(r), Keys: rfs(r, 3), Data: rfs(r, 3)})
 	}
-	for i, n := 0, r.Intn(3); i < n; i++ {
+	if boundary && r.Bool() {
+		rc.Events = append(rc.Events, &core.Event{From: fz(0)}) // an event with no keys and no data
+	}
+	for i, n := 0, r.Intn(3); i < n && !boundary; i++ {
 		var to [20]byte
 		for j := range to {
 			to[j] = byte(r.U64())
 		}
 		rc.L2ToL1Message = append(rc.L2ToL1Message, &core.L2ToL1Message{From: rf(r), To: eth.AddressFromBytes(to[:]), Payload: rfs(r, 3)})
 	}
+	if boundary && r.Bool() {
+		rc.L2ToL1Message = append(rc.L2ToL1Message, &core.L2ToL1Message{From: fz(0)}) // zero address, empty payload
+	}
 	if r.Chance(25) {
 		rc.Reverted = true
 		rc.RevertReason = fmt.Sprintf("reason-%d", r.Intn(1000))
+		if boundary {
+			rc.RevertReason = ""
+		}
 	}
 	if l1, ok := tx.(*core.L1HandlerTransaction); ok {
 		rc.L1ToL2Message = &core.L1ToL2Message{Nonce: l1.Nonce, Payload: l1.CallData[1:], Selector: l1.EntryPointSelector, To: l1.ContractAddress}
@@ -310,9 +421,17 @@ func genBlock(seed uint64, ctx blockCtx) (*Built, blockCtx) {
 	var rcs []*core.TransactionReceipt
 	var kinds []string
 	evCount := uint64(0)
+	if ctx.Tour { // one transaction of every kind, at its boundary values and at random values
+		nTx = 2 * nKinds
+	}
 	for i := 0; i < nTx; i++ {
-		tx, kind := genTx(tr, ctx.Version)
-		rc := genReceipt(tr, tx)
+		tx, kind := core.Transaction(nil), ""
+		if ctx.Tour {
+			tx, kind = genTxOf(tr, ctx.Version, i/2, i%2 == 0)
+		} else {
+			tx, kind = genTx(tr, ctx.Version)
+		}
+		rc := genReceipt(tr, tx, strings.HasSuffix(kind, "(boundary)"))
 		txs = append(txs, tx)
 		rcs = append(rcs, rc)
 		kinds = append(kinds, kind)
@@ -363,6 +482,21 @@ func planChain(seed uint64) chainPlan {
 	var p chainPlan
 	for i := 0; i < n; i++ {
 		ctx.Version = vers[i]
+		s := r.U64()
+		_, next := genBlock(s, ctx)
+		p.Seeds = append(p.Seeds, s)
+		p.Ctxs = append(p.Ctxs, ctx)
+		ctx = next
+	}
+	return p
+}
+
+func planTour(seed uint64) chainPlan {
+	r := hx.NewRNG(seed ^ 0x7007)
+	ctx := blockCtx{Number: 0, Timestamp: 1_700_000_000, NextAddr: 100, NextClass: 500, Tour: true}
+	var p chainPlan
+	for _, v := range []string{"0.12.3", "0.13.3", "0.14.1"} {
+		ctx.Version = v
 		s := r.U64()
 		_, next := genBlock(s, ctx)
 		p.Seeds = append(p.Seeds, s)
